@@ -20,6 +20,7 @@ prop(
         "Signer identifier shapes: the sid of a valid object of each kind rewritten with 0, 1, 10, 19, 21, 24, 32, 40 octets having the SKI as prefix or suffix, the SKI twice, halves swapped, one bit off - primitive and as constructed OCTET STRING (1xN, halves, 20+rest, rest+20, random split, nested, empty piece, indefinite length), strict and relaxed: all must be rejected; the right 20 octets in constructed form are recorded. "
         "A case signature is (kind, attribute order, signed-attrs size class <128 / 128..255 / >=256, strictness, violated condition or none, coverage relation, BER variant) "
         "or (flip, kind, region, decoded?) or (eContent shape, kind, family / member pattern, mode, covered?) or (sid shape, kind, octets, encoding, mode); undecodable flips count as rejected. evaluations = library decode+validate runs judged by the oracle."
+        "EE certificates off the RFC 6487 profile (no SIA, rpkiNotify only, signedObject plus caRepository, cA true, cA false present, CA key usage, no CRL / issuer pointer, router EKU, no AKI), correctly signed by the CA, under every kind of object: Cert::validate_ee_at is asked about the very same certificate and the object must be rejected whenever it refuses. "
     ),
     assumptions=[
         "keys are RSA-2048 from a cached pool; digest SHA-256; EE certificates come from the library's own builder (their validation is C01's subject)",
@@ -27,6 +28,7 @@ prop(
         "signed attributes other than content-type, message-digest, signing-time (binary-signing-time, unknown ones), duplicated identical attributes, missing content-type / signing-time, NULL digest parameters, a ROA EE with inherited resources and BER encodings in strict mode are outside the statement: outcome recorded, not asserted",
         "an unsorted SET OF signedAttrs is run under both signature inputs (as transmitted, DER-sorted); relaxed mode must accept at least one of the two, strict mode is only recorded",
         "the largest signed-attribute set tried is 5000 octets (the library documents a 65535 octet limit)",
+        "for EE certificates off the profile the reference is the library's own validate_ee_at (which C01 judges independently): the statement defines the condition by reference to C01",
     ],
     level_text=(
         "Runtime oracle: the conjunction in the statement is evaluated from the parameters the harness chose for each object it assembled itself, and compared with the library's accept / reject. "
